@@ -202,7 +202,12 @@ def run_commuting(case):
     spread = float(o.max() - o.min())
     eta_mag = sum(abs(eta_f(k * dt)) for k in range(1, nsteps + 2))
     scale = 1.0 + spread ** 2 * eta_mag
-    bound = C_BOUND * g["epsrel"] * scale
+    from vp.lib import pt_growth
+    growth = pt_growth(nsteps) if g["api"] == "pt" else 1.0
+    # scipy's default epsabs (1.49e-8) is part of the quadrature tolerance
+    # the library requests for every eta value
+    floor = 1.49e-8 * spread ** 2 * 3 * (nsteps + 1)
+    bound = C_BOUND * g["epsrel"] * scale * growth + floor
     if states.shape != ref.shape:
         violations.append({
             "what": f"returned {states.shape[0]} states, expected {ref.shape[0]}",
@@ -319,7 +324,9 @@ def run_modes(case):
     spread = float(o.max() - o.min())
     eta_mag = sum(abs(eta_f(k * dt)) for k in range(1, nsteps + 2))
     scale = 1.0 + spread ** 2 * eta_mag
-    bound = C_BOUND * epsrel * scale + 10 * trunc
+    from vp.lib import pt_growth
+    bound = C_BOUND * epsrel * scale * (pt_growth(nsteps) if api == "pt"
+                                        else 1.0) + 10 * trunc
     violations = []
     if states.shape != ref.shape:
         violations.append({"what": f"returned {states.shape[0]} states, "
